@@ -62,16 +62,22 @@ def _find_call(g, name):
 def rule_r1(rep, repo):
     fp = repo.method("MultiDomainGrid", "points")
     fw = repo.method("MultiDomainGrid", "weights")
-    P = _graph_of_return(repo, "MultiDomainGrid", fp).ret
-    W = _graph_of_return(repo, "MultiDomainGrid", fw).ret
+    P = e5.lift_phi(_graph_of_return(repo, "MultiDomainGrid", fp).ret)
+    W = e5.lift_phi(_graph_of_return(repo, "MultiDomainGrid", fw).ret)
 
     def unphi(g, fn):
         if g[0] == "phi":
             return ("phi", g[1], fn(g[2]), fn(g[3]))
         return fn(g)
-    W0 = unphi(W, lambda x: x) if W[0] != "comp" else W
-    if W[0] == "comp":
-        Wit = _strip_prod(W, "MultiDomainGrid.weights")
+    def all_arms_comp(g):
+        return g[0] == "comp" or (g[0] == "phi" and all_arms_comp(g[2]) and all_arms_comp(g[3]))
+
+    def strip_arms(g):
+        if g[0] == "phi":
+            return e5.mk_phi(g[1], strip_arms(g[2]), strip_arms(g[3]))
+        return _strip_prod(g, "MultiDomainGrid.weights")
+    if all_arms_comp(W):
+        Wit = strip_arms(W)
     else:
         mg = _find_call(W, "meshgrid")
         if mg is None:
@@ -102,11 +108,30 @@ def rule_r1(rep, repo):
 
 
 def rule_r2_r3(rep, repo):
-    f = repo.method("MultiDomainGrid", "integrate")
-    loops = [n for n in ast.walk(f.node) if isinstance(n, ast.For) and isinstance(n.iter, ast.Call)
-             and norm(n.iter.func) == "zip" and len(n.iter.args) == 2]
-    if len(loops) < 2:
+    f0 = repo.method("MultiDomainGrid", "integrate")
+    # integrate together with the private methods it delegates a route to
+    funcs = [f0]
+    for c in ast.walk(f0.node):
+        if isinstance(c, ast.Call) and isinstance(c.func, ast.Attribute) and norm(c.func.value) == "self" and \
+                c.func.attr.startswith("_"):
+            h = repo.resolve_method("MultiDomainGrid", c.func.attr)
+            if h is not None and not h.is_property and h not in funcs:
+                funcs.append(h)
+
+    def zip_loops(fn):
+        return [n for n in ast.walk(fn.node) if isinstance(n, ast.For) and isinstance(n.iter, ast.Call)
+                and norm(n.iter.func) == "zip" and len(n.iter.args) == 2]
+    if sum(len(zip_loops(fn)) for fn in funcs) < 2:
         raise AnalysisError("unrecognised idiom: integrate does not consume two paired streams with zip(...) twice")
+    done = {"vec": False, "chunk": False}
+    for f in funcs:
+        if zip_loops(f):
+            _streams_of(rep, repo, f, zip_loops(f), done)
+    if not all(done.values()):
+        raise AnalysisError(f"integrate routes not all found: {done}")
+
+
+def _streams_of(rep, repo, f, loops, done):
     vg = e5.VG(repo, "MultiDomainGrid", f.node)
     # evaluate everything except the loops themselves (we only need the stream definitions)
     def run(body):
@@ -132,7 +157,6 @@ def rule_r2_r3(rep, repo):
             else:
                 vg.stmt(s)
     run(strip_docstring(f.node.body))
-    done = {"vec": False, "chunk": False}
     for lp in loops:
         a, b = (vg.ev(x) for x in lp.iter.args)
         txt = e5.show(a, 400) + e5.show(b, 400)
@@ -218,13 +242,11 @@ def rule_r2_r3(rep, repo):
                 rep.violation("R2.last-domain", "ngrid.MultiDomainGrid.integrate", "last",
                               "the domain left out of the partial combinations is not the one integrated over "
                               "(self.grid_list[-1]) or the repeat count is not num_domains - 1", repo.rel("ngrid", lp))
-    if not all(done.values()):
-        raise AnalysisError(f"integrate routes not all found: {done}")
 
 
 def rule_r4(rep, repo, P):
     f = repo.method("MultiDomainGrid", "size")
-    S = _graph_of_return(repo, "MultiDomainGrid", f).ret
+    S = e5.lift_phi(_graph_of_return(repo, "MultiDomainGrid", f).ret)
     # expected: phi(cond, grid_list[0].size ** num_domains, prod(grid.size for grid in grid_list))
     if P[0] != "phi" or S[0] != "phi":
         raise AnalysisError("unrecognised idiom: points/size are not two-branch definitions")
